@@ -53,6 +53,7 @@ type OCase struct {
 var okinds = []string{
 	"rej-v0", "rej-v0", "rej-v1", "acc-v0-garbage", "acc-v0-short-sig", "acc-v0-wrong-state", "acc-v1", "acc-v0-valid",
 	"update-v1", "update-v1-cols+1", "update-v0", "update-v1-unsigned", "sync", "sync-nil", "propacc-again", "proprej",
+	"propacc-sub-kind", "propacc-virtual-kind",
 }
 
 func drawOScenario(t *rapid.T) OScenario {
@@ -348,6 +349,10 @@ func runOScenario(sc OScenario, idx int, o *h.Outcome, omu *sync.Mutex) *h.Failu
 			}
 		case "proprej":
 			return &client.ChannelProposalRejMsg{ProposalID: prop.ProposalID, Reason: "no"}
+		case "propacc-sub-kind": // an acceptance for the right proposal id, but of another proposal kind
+			return &client.SubChannelProposalAccMsg{BaseChannelProposalAcc: client.BaseChannelProposalAcc{ProposalID: prop.ProposalID, NonceShare: share}}
+		case "propacc-virtual-kind":
+			return &client.VirtualChannelProposalAccMsg{BaseChannelProposalAcc: client.BaseChannelProposalAcc{ProposalID: prop.ProposalID, NonceShare: share}, Responder: addrMap(A)}
 		}
 		return nil
 	}
